@@ -136,7 +136,12 @@ func (r *clientRun) onComplete(req int) service.OnCompleteFunc {
 func (r *clientRun) onPublish(req int) service.OnPublishFunc {
 	return func(msg *message.PublishMessage) error {
 		r.mu.Lock()
-		r.disp = append(r.disp, cDisp{Cb: req, T: string(msg.Topic()), M: tagOf(msg.Payload()), N: 1})
+		// message tags starting with "R" stand for messages that carry the RETAIN flag ("R" alone: and no payload)
+		mtag := tagOf(msg.Payload())
+		if msg.Retain() {
+			mtag = "R" + mtag
+		}
+		r.disp = append(r.disp, cDisp{Cb: req, T: string(msg.Topic()), M: mtag, N: 1})
 		r.mu.Unlock()
 		return nil
 	}
@@ -282,7 +287,12 @@ func runClientBehaviour(steps []cStep, res *Result, dev bool) (string, string) {
 			if a.Q > 0 {
 				body = append(body, byte(a.ID>>8), byte(a.ID))
 			}
-			r.peer.Write(pkt(first, append(body, brokerPayload(a.M)...)))
+			ptag := a.M
+			if strings.HasPrefix(ptag, "R") {
+				first |= 1
+				ptag = ptag[1:]
+			}
+			r.peer.Write(pkt(first, append(body, brokerPayload(ptag)...)))
 			if !waitProc(base + 1) {
 				return where + ": the client did not process the PUBLISH within 3 s", "C20"
 			}
